@@ -39,10 +39,13 @@ Inductive act :=
 | XBaseLen (c : cellsel)         (* base := number of nodes of graph_id + 1: an id computed from the SIZE of the graph *)
 | XSetCtrBase1 (c : cellsel)     (* counter := base + 1 *)
 | XRemove (c : cellsel)          (* a caller removes node k of graph_id from the stored graph (delete_node) *)
-| XAcqFail.                      (* lock.acquire(timeout=..) returned False: the lock was NOT acquired *)
+| XAcqFail                       (* lock.acquire(timeout=..) returned False: the lock was NOT acquired *)
+| XDelCtr (c : cellsel).         (* the counter entry of graph_id is deleted (a later read gives the default 1) *)
 
 Inductive cond := CFree | CFound | CNotFound.
-Inductive fclass := FNever | FWeak | FDecl.
+Inductive fclass := FNever | FWeak | FDecl | FMay.
+(* FMay: a statement KNOWN to raise on some states wherever it stands, also outside any try
+   (`del d[k]` / `d.pop(k)` of a possibly absent key): a fault point in both modes *)
 Inductive fmode := AllFaults | DeclFaults.
 
 Inductive evkind :=
@@ -80,6 +83,7 @@ Definition is_fp (fm : fmode) (f : fclass) : bool :=
   | FWeak, AllFaults => true
   | FWeak, DeclFaults => false
   | FDecl, _ => true
+  | FMay, _ => true
   end.
 
 Definition xres := (outcome * list event * path)%type.
